@@ -230,7 +230,18 @@ spif_url_dup(spif_url_t self)
     spif_url_t tmp;
 
     ASSERT_RVAL(!SPIF_URL_ISNULL(self), (spif_url_t) NULL);
-    tmp = spif_url_new_from_str(SPIF_STR(self));
+    /* Copy the text and each component as they are now; re-parsing the text would miss
+       components changed through the property setters since the last unparse. */
+    tmp = SPIF_ALLOC(url);
+    spif_str_init_from_ptr(SPIF_STR(tmp), SPIF_STR_STR(SPIF_STR(self)));
+    spif_obj_set_class(SPIF_OBJ(tmp), SPIF_CLASS_VAR(url));
+    tmp->proto = (SPIF_STR_ISNULL(self->proto)) ? ((spif_str_t) NULL) : (spif_str_dup(self->proto));
+    tmp->user = (SPIF_STR_ISNULL(self->user)) ? ((spif_str_t) NULL) : (spif_str_dup(self->user));
+    tmp->passwd = (SPIF_STR_ISNULL(self->passwd)) ? ((spif_str_t) NULL) : (spif_str_dup(self->passwd));
+    tmp->host = (SPIF_STR_ISNULL(self->host)) ? ((spif_str_t) NULL) : (spif_str_dup(self->host));
+    tmp->port = (SPIF_STR_ISNULL(self->port)) ? ((spif_str_t) NULL) : (spif_str_dup(self->port));
+    tmp->path = (SPIF_STR_ISNULL(self->path)) ? ((spif_str_t) NULL) : (spif_str_dup(self->path));
+    tmp->query = (SPIF_STR_ISNULL(self->query)) ? ((spif_str_t) NULL) : (spif_str_dup(self->query));
     return tmp;
 }
 
